@@ -161,6 +161,9 @@ def main(prop, tier):
         run(prop, tier, sd, rep, clauses, modes)
     except pl.ExitTwo as e:
         rep.problem(str(e))
+    except Exception:  # a crash of the machinery is never a verdict
+        import traceback
+        rep.problem('internal error: ' + traceback.format_exc()[-3000:])
     return rep.finish()
 
 
@@ -351,7 +354,7 @@ def run(prop, tier, sd, rep, clauses, modes):
                     txt = open(rr['trace']).read()
                     r2 = pl.tlc(w, 'InjectorReq', 'InjectorReq.cfg',
                                 files={'decls.json': json.dumps([ds.tla_decl(byid[did])]), 'trace.ndjson': txt},
-                                workers=1, timeout=1200, name='redrive')
+                                workers=1, timeout=1200, name='redrive-%s-%d-%d' % (did, g, abs(hash(sig)) % 100000))
                     vp2 = os.path.join(r2['dir'], 'viol.json')
                     if not os.path.exists(vp2):
                         continue
